@@ -123,3 +123,52 @@ def fam_forest(n, with_aux=True, pairs=True, ctxs=ALLCTX, aux_kinds=("repeat1", 
                                    forest_prog(names, parents, [(g[0], g[1], "e1")], ctxs,
                                                auxif=(m, "x", "e0", pos), extra_framers=[ax]),
                                    dict(parents=parents))
+
+
+# ------------------------------------------------------------------------------- C08 guards
+
+def guarded_forest_prog(names, parents, guards, go, aux_at=(), aux_kind="guard1", ctxs=("benter", "enter", "exit", "recur")):
+    """guards: tuple per frame of None|'e0'|'e1' -> `let me if env.eX == 1` placed BEFORE the frame's benter
+    recorder, so a benter event proves every guard of that frame held.  go: (src, target, bit).
+    aux_at: frame indexes that carry the plain (original) auxiliary `x`."""
+    frames = []
+    for i, nm in enumerate(names):
+        items = []
+        if guards[i]:
+            items.append(("let", [BITS[guards[i]]]))
+        items += recs(nm, ctxs)
+        if i in aux_at:
+            items.append(("aux", "x"))
+        if go and go[0] == i:
+            items.append(("go", go[1], [BITS[go[2]]] if go[2] else []))
+        frames.append(dict(name=nm, over=names[parents[i]] if parents[i] is not None else None, items=items))
+    framers = [dict(name="m", schedule="active", frames=frames)]
+    if aux_at:
+        framers.append(aux_framer("x", aux_kind))
+    return dict(tick=0.125, inits=list(ENV_INITS), framers=framers)
+
+
+def fam_guards(n, with_aux=True):
+    for names, parents in forests(n):
+        targets = list(names) + ["next", "me"]
+        gos = [(s, t, "e0") for s in range(n) for t in targets if not (t == "next" and s == n - 1)]
+        for guards in itertools.product((None, "e1"), repeat=n):
+            if not any(guards):
+                continue
+            for go in gos:
+                yield ("guards%d/%s/%s/%s" % (n, parents, guards, go),
+                       guarded_forest_prog(names, parents, guards, go), dict(parents=parents))
+        if with_aux:
+            none = (None,) * n
+            # one frame carries an aux whose first frame is guarded by e1
+            for a in range(n):
+                for go in gos:
+                    yield ("guards%d/%s/aux@%d/%s" % (n, parents, a, go),
+                           guarded_forest_prog(names, parents, none, go, aux_at=(a,)), dict(parents=parents))
+            # the same original aux on two frames (ownership)
+            for a, b in itertools.combinations(range(n), 2):
+                for kind in ("never", "repeat1"):
+                    for go in gos:
+                        yield ("guards%d/%s/aux@%d+%d-%s/%s" % (n, parents, a, b, kind, go),
+                               guarded_forest_prog(names, parents, none, go, aux_at=(a, b), aux_kind=kind),
+                               dict(parents=parents))
